@@ -51,6 +51,7 @@ type Task struct {
 	// a reader that does not run for a long time)
 	stalled  bool
 	adopted  bool // a goroutine bbolt spawned itself (batch trigger)
+	foreign  bool // adopted at an ordinary hook: its end is not announced by OnceExit
 	abortErr any
 }
 
@@ -83,6 +84,8 @@ type Sched struct {
 
 	TimersPending bool // bbolt timers may be pending (Batch): advancing the clock is always an option
 	Stickiness    int  // 0..100: probability of continuing with the task that ran last
+	running       bool
+	Adopted       int  // goroutines adopted at ordinary hooks
 	Draining      bool // decision budget used up: finish deterministically without pre-emption
 	Stuck         bool // even draining did not finish: harness trouble, never a verdict
 }
@@ -162,11 +165,36 @@ func (t *Task) Pause(point string) { t.park(stReady, point) }
 // Now returns the global event sequence number (for invoke/return stamps).
 func (s *Sched) Now() int { return s.Seq }
 
+// adopt registers a goroutine the scheduler did not start (spawned by the
+// code under test) the first time it reaches a hook while the run is on.
+func (s *Sched) adopt(point string) *Task {
+	if !s.running {
+		return nil
+	}
+	s.mu.Lock()
+	n := 0
+	prefix := "adopted." + point
+	for _, x := range s.tasks {
+		if strings.HasPrefix(x.Name, prefix) {
+			n++
+		}
+	}
+	t := &Task{Name: fmt.Sprintf("%s.%d", prefix, n), idx: len(s.tasks), s: s, wake: make(chan struct{}), state: stRunning, adopted: true, foreign: true}
+	t.goid = goid()
+	s.tasks = append(s.tasks, t)
+	s.byGoid[t.goid] = t
+	s.Adopted++
+	s.mu.Unlock()
+	return t
+}
+
 // Yield is installed as bbolt's verifYield hook.
 func (s *Sched) Yield(db *bolt.DB, point string) {
 	t := s.cur()
 	if t == nil {
-		return
+		if t = s.adopt(point); t == nil {
+			return
+		}
 	}
 	t.park(stReady, point)
 }
@@ -175,7 +203,9 @@ func (s *Sched) Yield(db *bolt.DB, point string) {
 func (s *Sched) Lock(db *bolt.DB, which int, exclusive bool, try func() bool) {
 	t := s.cur()
 	if t == nil {
-		return
+		if t = s.adopt("lock." + lockName(which)); t == nil {
+			return
+		}
 	}
 	key := lockKey{db, which}
 	s.mu.Lock()
@@ -308,6 +338,8 @@ var quanta = []time.Duration{time.Millisecond, 10 * time.Millisecond, 50 * time.
 // It must be called from the bubble's root goroutine.
 func (s *Sched) Run() {
 	s.SimStart = time.Now()
+	s.running = true
+	defer func() { s.running = false }()
 	for {
 		synctest.Wait()
 		s.mu.Lock()
@@ -323,7 +355,7 @@ func (s *Sched) Run() {
 		var en []*Task
 		alive, ext := 0, 0
 		for _, t := range tasks {
-			if t.state != stDone {
+			if t.state != stDone && !(t.foreign && t.state == stExternal) {
 				alive++
 			}
 			if t.state == stExternal {
